@@ -105,7 +105,18 @@ def r1_validate_before_use(ctx):
                 k = x.slice
                 ktxt = U(k)
                 ok, why = False, ""
-                if dominated_by_membership(n, d, ktxt):
+                # inside a comprehension: `... D[k] ... for k in .. if k in D` (the filter guards the element)
+                comp_guard = False
+                for cp in ast.walk(st):
+                    if isinstance(cp, (ast.DictComp, ast.ListComp, ast.SetComp, ast.GeneratorExp)) and any(y is x for y in ast.walk(cp)):
+                        for gen in cp.generators:
+                            for cond in gen.ifs:
+                                for c in ast.walk(cond):
+                                    if isinstance(c, ast.Compare) and len(c.ops) == 1 and isinstance(c.ops[0], ast.In) and U(c.left) == ktxt and U(c.comparators[0]) == d and not _under_or(cond, c):
+                                        comp_guard = True
+                if comp_guard:
+                    ok, why = True, f"comprehension filter `{ktxt} in {d}`"
+                elif dominated_by_membership(n, d, ktxt):
                     ok, why = True, f"`{ktxt} in {d}` holds here"
                 elif isinstance(k, ast.Constant) and d == "self.param_study":
                     # assigned earlier in this function ?
@@ -394,6 +405,37 @@ def r6_at_least_one_visit(ctx):
         ctx.check("AGE_AT_BASELINE" in first, "C18.R6", f, st0, "the first visit is the baseline age", f"the first visit is `{first[:60]}`, not the baseline age", construct="first visit = baseline")
 
 
+def r7_options_reach_param_study(ctx):
+    """An option that the algorithm reads from `self.param_study` but that `_set_param_study` cannot copy there is silently ignored: it is
+    neither validated ('refused with an algorithm-input error') nor honoured ('the documented precision')."""
+    ctx.rule("C18.R7", "every key the algorithm reads from param_study can be copied there by _set_param_study", 8)
+    ix = ctx.ix
+    sp_ = ix.func(SIM, f"{CLS}._set_param_study", "C18.R7")
+    req = _requirements(ctx)
+    copied = {c.value for c in ast.walk(sp_.node) if isinstance(c, ast.Constant) and isinstance(c.value, str)}
+    if any(isinstance(x, ast.Attribute) and x.attr == "_PARAM_REQUIREMENTS" for x in ast.walk(sp_.node)):
+        for ks in req.values():
+            copied |= set(ks)
+    cls = ix.find_class(CLS)
+    used = {}
+    for f in ix.iter_funcs():
+        if f.cls != cls or f.key == sp_.key:
+            continue
+        for x in ast.walk(f.node):
+            key = None
+            if isinstance(x, ast.Subscript) and U(x.value) == "self.param_study" and isinstance(x.slice, ast.Constant):
+                key = x.slice.value
+            elif isinstance(x, ast.Compare) and len(x.ops) == 1 and isinstance(x.ops[0], (ast.In, ast.NotIn)) and U(x.comparators[0]) == "self.param_study" and isinstance(x.left, ast.Constant):
+                key = x.left.value
+            elif isinstance(x, ast.Call) and U(x.func) == "self.param_study.get" and x.args and isinstance(x.args[0], ast.Constant):
+                key = x.args[0].value
+            if isinstance(key, str):
+                used.setdefault(key, (f, x))
+    for key, (f, x) in sorted(used.items()):
+        ctx.check(key in copied, "C18.R7", f, x, f"`{key}` can be copied into param_study", f"`{key}` is read from param_study but _set_param_study never copies it there: the option is silently ignored "
+                  "(not validated, not applied)", construct=f"option {key}")
+
+
 def rules(ctx):
     r1_validate_before_use(ctx)
     r2_none_use(ctx)
@@ -401,6 +443,7 @@ def rules(ctx):
     r4_progress(ctx)
     r5_beta_domain(ctx)
     r6_at_least_one_visit(ctx)
+    r7_options_reach_param_study(ctx)
     ctx.trust("isinstance / `in` semantics; the shipped default_simulate.json provides the top-level keys")
 
 
